@@ -239,6 +239,9 @@ func (ex *Exec) callV(caller *frame, fn V, args []V, pos token.Pos) V {
 
 // throw raises a Go runtime panic in the target program.
 func (ex *Exec) throw(msg string) {
+	if os.Getenv("GOSYM_PANICDEBUG") != "" {
+		fmt.Fprintf(os.Stderr, "THROW: %s\n", msg)
+	}
 	panic(goPanic{v: Iface{T: ex.ld.runtimeErrType, V: StrV{S: msg}}, msg: msg})
 }
 
@@ -478,6 +481,9 @@ func (fr *frame) visit(instr ssa.Instruction) int {
 		fr.runDefers()
 	case *ssa.Panic:
 		v := fr.get(in.X)
+		if os.Getenv("GOSYM_PANICDEBUG") != "" {
+			fmt.Fprintf(os.Stderr, "PANIC instr in %s at %s: %s\n", fr.fn.Name(), ex.loc(in.Pos()), ex.panicMsg(v))
+		}
 		panic(goPanic{v: v, msg: ex.panicMsg(v)})
 	case *ssa.Send:
 		ch := fr.get(in.Chan).(*ChanV)
